@@ -10,8 +10,15 @@ from . import invariants as inv
 from .sim import dump_tables
 
 
+class AbortBuild(BaseException):
+    """Raised inside the committing transaction on the first finding: the build is pointless
+    from here on, and a corrupted workflow may make the director spin for ever."""
+
+
 class Instrument:
-    def __init__(self, *, wellformed=True, dispatch=True, per_task=False, max_findings=8):
+    def __init__(self, *, wellformed=True, dispatch=True, per_task=False, max_findings=8,
+                 fail_fast=True):
+        self.fail_fast = fail_fast
         self.do_wellformed = wellformed
         self.do_dispatch = dispatch
         self.per_task = per_task
@@ -24,6 +31,11 @@ class Instrument:
                        "phase_ends": 0, "moves": 0}
         self.seen_moves = set()
         self.first = True
+        self.observations = {}
+        self.aborting = False
+        self.open_calls = {}  # task -> list of (commit number, changed tables) of this request
+        self.requests = {"accepted": 0, "rejected": 0, "internal-error": 0,
+                         "rejected_with_commit": 0}
 
     # -- installation (called from session_setup)
 
@@ -49,12 +61,17 @@ class Instrument:
             await orig_loop(builder)
             await me.phase_ended(builder)
 
+        if self.per_task:
+            session.call_hooks.append(self)
         session.patches.append((Scheduler, "pop_next_job", pop_next_job))
         session.patches.append((Builder, "job_loop", job_loop))
 
     def note(self, sig, msg):
         if len(self.findings) < self.max_findings:
             self.findings.append((sig, msg))
+        if self.fail_fast and not self.aborting:
+            self.aborting = True
+            raise AbortBuild(sig)
 
     # -- configuration read from the live objects (inputs, not cached state)
 
@@ -83,8 +100,15 @@ class Instrument:
             for sig, msg in inv.wellformed(cur):
                 self.note("invariant/" + sig, f"after commit {ncommit}: {msg}")
             if self.prev is not None:
-                for sig, msg in inv.moves(self.prev, cur, boundary=self.first):
-                    self.note("move/" + sig, f"in commit {ncommit}: {msg}")
+                in_flight = set()
+                if self.session.handler is not None:
+                    in_flight = {st.i for st in self.session.handler.scheduler.jobs.values()}
+                for sig, msg in inv.moves(self.prev, cur, boundary=self.first,
+                                          in_flight=in_flight):
+                    if sig == "observation":
+                        self.observations[msg] = self.observations.get(msg, 0) + 1
+                    else:
+                        self.note("move/" + sig, f"in commit {ncommit}: {msg}")
                 for i, s in cur.steps.items():
                     p = self.prev.steps.get(i)
                     if p is not None and p["state"] != s["state"]:
@@ -92,8 +116,36 @@ class Instrument:
         if self.do_dispatch and self.session.handler is not None \
                 and asyncio.current_task() is self.pop_task and self.pop_task is not None:
             self.decision(con, cur, ncommit)
+        if self.per_task:
+            task = asyncio.current_task()
+            if task in self.open_calls:
+                changed = [] if self.prev is None else [
+                    t for t in tables if tables[t] != self.prev.tables[t]]
+                self.open_calls[task].append((ncommit, changed, self.prev, cur))
         self.prev = cur
         self.first = False
+
+    # -- C15: requests of simulated steps (called from Session._call, same task as the handler)
+
+    def call_started(self, ctx, opname):
+        self.open_calls[asyncio.current_task()] = []
+
+    def call_finished(self, ctx, opname, outcome):
+        txs = self.open_calls.pop(asyncio.current_task(), [])
+        self.requests[outcome] += 1
+        mutating = [(n, changed, a, b) for n, changed, a, b in txs if changed]
+        if outcome != "accepted":
+            if txs:
+                self.requests["rejected_with_commit"] += 1
+            if mutating:
+                n, changed, a, b = mutating[0]
+                self.note(f"atomicity/rejected-request-changed-workflow/{opname}",
+                          f"{opname} from {ctx['label']!r} was rejected, yet its transaction "
+                          f"(commit {n}) changed {changed}: " + table_diff(a.tables, b.tables))
+        elif len(mutating) > 1:
+            self.note(f"atomicity/request-applied-in-several-transactions/{opname}",
+                      f"{opname} from {ctx['label']!r} changed the workflow in commits "
+                      f"{[(n, changed) for n, changed, _, _ in mutating]}")
 
     # -- a dispatch decision (the transaction of Scheduler.pop_next_job)
 
@@ -195,3 +247,15 @@ class Instrument:
             self.note("phase-ended-with-eligible-step",
                       f"job loop ended (not draining) while these steps satisfy every dispatch "
                       f"condition: {[(view.label(i), m) for i, m in el.items()]}")
+
+
+def table_diff(a, b, limit=6):
+    out = []
+    for t in a:
+        ra = {repr(sorted(r.items())) for r in a[t]}
+        rb = {repr(sorted(r.items())) for r in b[t]}
+        for r in sorted(ra - rb)[:limit]:
+            out.append(f"-{t} {r[:200]}")
+        for r in sorted(rb - ra)[:limit]:
+            out.append(f"+{t} {r[:200]}")
+    return "; ".join(out[:2 * limit])
